@@ -10,9 +10,17 @@ Record block := {
   breg : option nat;       (* DiatomicWaker: the registered task waker (one-shot) *)
   bstrong : nat;           (* manual reference count *)
   bfreed : bool;
+  (* ghost (no influence on behaviour): *)
+  blast : option nat;      (* the task waker of the most recent [register] on this block *)
+  btw : bool;              (* that task waker was invoked since that registration *)
 }.
 
 Inductive handle := HTask (w : nat) | HChild (b s : nat).
+
+(** ghost counters (never read by the model's control flow): child polls, enqueues of a slot
+    into a ready queue, and the three reasons for an enqueue: accepted pushes, child-waker
+    invocations, re-arms after a merge item *)
+Record ghost := { gpolls : nat; genq : nat; gpush : nat; gwake : nat; gitems : nat }.
 
 Record world := {
   blocks : list block;
@@ -22,49 +30,69 @@ Record world := {
   regk : nat;              (* register calls so far in this op *)
   popk : nat;              (* pop calls so far in this op *)
   nalloc : nat;            (* allocator calls so far in this op *)
+  wghost : ghost;
 }.
 
 Definition emit (e : event) (w : world) : world :=
   {| blocks := blocks w; handles := handles w; log := e :: log w;
-     winj := winj w; regk := regk w; popk := popk w; nalloc := nalloc w |}.
+     winj := winj w; regk := regk w; popk := popk w; nalloc := nalloc w; wghost := wghost w |}.
 
 Definition set_blocks (bs : list block) (w : world) : world :=
   {| blocks := bs; handles := handles w; log := log w;
-     winj := winj w; regk := regk w; popk := popk w; nalloc := nalloc w |}.
+     winj := winj w; regk := regk w; popk := popk w; nalloc := nalloc w; wghost := wghost w |}.
 
 Definition set_handles (hs : list (option handle)) (w : world) : world :=
   {| blocks := blocks w; handles := hs; log := log w;
-     winj := winj w; regk := regk w; popk := popk w; nalloc := nalloc w |}.
+     winj := winj w; regk := regk w; popk := popk w; nalloc := nalloc w; wghost := wghost w |}.
 
 Definition set_regk (k : nat) (w : world) : world :=
   {| blocks := blocks w; handles := handles w; log := log w;
-     winj := winj w; regk := k; popk := popk w; nalloc := nalloc w |}.
+     winj := winj w; regk := k; popk := popk w; nalloc := nalloc w; wghost := wghost w |}.
 
 Definition set_popk (k : nat) (w : world) : world :=
   {| blocks := blocks w; handles := handles w; log := log w;
-     winj := winj w; regk := regk w; popk := k; nalloc := nalloc w |}.
+     winj := winj w; regk := regk w; popk := k; nalloc := nalloc w; wghost := wghost w |}.
+
+Definition set_ghost (g : ghost) (w : world) : world :=
+  {| blocks := blocks w; handles := handles w; log := log w;
+     winj := winj w; regk := regk w; popk := popk w; nalloc := nalloc w; wghost := g |}.
 
 Definition begin_op (i : injection) (w : world) : world :=
   {| blocks := blocks w; handles := handles w; log := [];
-     winj := i; regk := 0; popk := 0; nalloc := 0 |}.
+     winj := i; regk := 0; popk := 0; nalloc := 0; wghost := wghost w |}.
 
 Definition count_alloc (n : nat) (w : world) : world :=
   {| blocks := blocks w; handles := handles w; log := log w;
-     winj := winj w; regk := regk w; popk := popk w; nalloc := n + nalloc w |}.
+     winj := winj w; regk := regk w; popk := popk w; nalloc := n + nalloc w; wghost := wghost w |}.
+
+Definition g_poll (w : world) : world :=
+  let g := wghost w in set_ghost {| gpolls := S (gpolls g); genq := genq g; gpush := gpush g; gwake := gwake g; gitems := gitems g |} w.
+Definition g_enq (w : world) : world :=
+  let g := wghost w in set_ghost {| gpolls := gpolls g; genq := S (genq g); gpush := gpush g; gwake := gwake g; gitems := gitems g |} w.
+Definition g_push (w : world) : world :=
+  let g := wghost w in set_ghost {| gpolls := gpolls g; genq := genq g; gpush := S (gpush g); gwake := gwake g; gitems := gitems g |} w.
+Definition g_wake (w : world) : world :=
+  let g := wghost w in set_ghost {| gpolls := gpolls g; genq := genq g; gpush := gpush g; gwake := S (gwake g); gitems := gitems g |} w.
+Definition g_item (w : world) : world :=
+  let g := wghost w in set_ghost {| gpolls := gpolls g; genq := genq g; gpush := gpush g; gwake := gwake g; gitems := S (gitems g) |} w.
 
 Definition get_blk (w : world) (b : nat) : option block := nth_error (blocks w) b.
 
 Definition put_blk (b : nat) (k : block) (w : world) : world :=
   set_blocks (upd (blocks w) b k) w.
 
-Definition blk_set_flags (k : block) f := {| bcap := bcap k; bflags := f; bqueue := bqueue k; breg := breg k; bstrong := bstrong k; bfreed := bfreed k |}.
-Definition blk_set_queue (k : block) q := {| bcap := bcap k; bflags := bflags k; bqueue := q; breg := breg k; bstrong := bstrong k; bfreed := bfreed k |}.
-Definition blk_set_reg (k : block) r := {| bcap := bcap k; bflags := bflags k; bqueue := bqueue k; breg := r; bstrong := bstrong k; bfreed := bfreed k |}.
-Definition blk_set_strong (k : block) n := {| bcap := bcap k; bflags := bflags k; bqueue := bqueue k; breg := breg k; bstrong := n; bfreed := bfreed k |}.
-Definition blk_set_freed (k : block) f := {| bcap := bcap k; bflags := bflags k; bqueue := bqueue k; breg := breg k; bstrong := bstrong k; bfreed := f |}.
+Definition blk_set_flags (k : block) f := {| bcap := bcap k; bflags := f; bqueue := bqueue k; breg := breg k; bstrong := bstrong k; bfreed := bfreed k; blast := blast k; btw := btw k |}.
+Definition blk_set_queue (k : block) q := {| bcap := bcap k; bflags := bflags k; bqueue := q; breg := breg k; bstrong := bstrong k; bfreed := bfreed k; blast := blast k; btw := btw k |}.
+Definition blk_set_reg (k : block) r := {| bcap := bcap k; bflags := bflags k; bqueue := bqueue k; breg := r; bstrong := bstrong k; bfreed := bfreed k; blast := blast k; btw := btw k |}.
+Definition blk_set_strong (k : block) n := {| bcap := bcap k; bflags := bflags k; bqueue := bqueue k; breg := breg k; bstrong := n; bfreed := bfreed k; blast := blast k; btw := btw k |}.
+Definition blk_set_freed (k : block) f := {| bcap := bcap k; bflags := bflags k; bqueue := bqueue k; breg := breg k; bstrong := bstrong k; bfreed := f; blast := blast k; btw := btw k |}.
+(** ghost updates *)
+Definition blk_set_last (k : block) l := {| bcap := bcap k; bflags := bflags k; bqueue := bqueue k; breg := breg k; bstrong := bstrong k; bfreed := bfreed k; blast := l; btw := false |}.
+Definition blk_set_tw (k : block) := {| bcap := bcap k; bflags := bflags k; bqueue := bqueue k; breg := breg k; bstrong := bstrong k; bfreed := bfreed k; blast := blast k; btw := true |}.
 
 Definition new_block (cap : nat) : block :=
-  {| bcap := cap; bflags := repeat false cap; bqueue := []; breg := None; bstrong := 1; bfreed := false |}.
+  {| bcap := cap; bflags := repeat false cap; bqueue := []; breg := None; bstrong := 1; bfreed := false;
+     blast := None; btw := false |}.
 
 (** [WakerList::new]: returns the uid of the new block *)
 Definition alloc_block (cap : nat) (w : world) : nat * world :=
@@ -76,7 +104,7 @@ Definition notify (b : nat) (w : world) : world :=
   match get_blk w b with
   | Some k =>
       match breg k with
-      | Some t => emit (ETWake t CChild) (put_blk b (blk_set_reg k None) w)
+      | Some t => emit (ETWake t CChild) (put_blk b (blk_set_tw (blk_set_reg k None)) w)
       | None => w
       end
   | None => w
@@ -88,7 +116,7 @@ Definition enqueue_slot (b s : nat) (w : world) : bool * world :=
   | Some k =>
       match nth_error (bflags k) s with
       | Some false =>
-          (true, put_blk b (blk_set_queue (blk_set_flags k (upd (bflags k) s true)) (bqueue k ++ [s])) w)
+          (true, g_enq (put_blk b (blk_set_queue (blk_set_flags k (upd (bflags k) s true)) (bqueue k ++ [s])) w))
       | _ => (false, w)
       end
   | None => (false, w)
@@ -96,6 +124,7 @@ Definition enqueue_slot (b s : nat) (w : world) : bool * world :=
 
 (** waker vtable [wake_by_ref] on item (b, s) *)
 Definition wake_slot (b s : nat) (w : world) : world :=
+  let w := g_wake w in
   match get_blk w b with
   | Some k =>
       if bfreed k then emit EVtBad w
@@ -179,7 +208,17 @@ Definition forced_inc (k : nat) (w : world) : bool :=
   existsb (Nat.eqb k) (inj_inc (winj w)).
 
 Definition empty_world : world :=
-  {| blocks := []; handles := []; log := []; winj := no_inj; regk := 0; popk := 0; nalloc := 0 |}.
+  {| blocks := []; handles := []; log := []; winj := no_inj; regk := 0; popk := 0; nalloc := 0;
+     wghost := {| gpolls := 0; genq := 0; gpush := 0; gwake := 0; gitems := 0 |} |}.
+
+(** the crate wakes the task itself (budget exhausted / inconsistent queue) while polling
+    the group with block [b] *)
+Definition self_wake (b t : nat) (w : world) : world :=
+  let w := match get_blk w b with
+           | Some k => put_blk b (blk_set_tw k) w
+           | None => w
+           end in
+  emit (ETWake t CCrate) w.
 
 (** cleanup: drop every live handle in increasing order *)
 Fixpoint cleanup_from (n : nat) (h : nat) (w : world) : world :=
